@@ -42,7 +42,7 @@ def run(ctx):
         u = mdl.eval_real(pools.factors_term(factors))
         lo, hi, _ = orc.unit_size(u)
         size = (lo + hi) / 2
-        mag = float(value / size)
+        mag = core.sf(value / size)
         return Q(mag, u)
 
     def overlaps(got, want, tol_abs):
@@ -129,7 +129,7 @@ def run(ctx):
                     want = (sa[0] + sb[0], sa[1] + sb[1]) if opname == "add" else (sa[0] - sb[1], sa[1] - sb[0])
                     scale = max(abs(sa[0]), abs(sa[1]), abs(sb[0]), abs(sb[1]))
                     if not overlaps(got, want, scale * (TOL * degree + R9)):
-                        ctx.violation(f"C06:{opname}:si-value-differs", f"{xa!r} {opname} {xb!r} = {res!r}: SI {float(got[0])!r} expected {float(want[0])!r}", case)
+                        ctx.violation(f"C06:{opname}:si-value-differs", f"{xa!r} {opname} {xb!r} = {res!r}: SI {core.sf(got[0])!r} expected {core.sf(want[0])!r}", case)
                     if opname == "add" and res2 is not None and kit.finite(res2.magnitude):
                         got2 = si(res2)[:2]
                         if not overlaps(got2, want, scale * (TOL * degree + R9)):
@@ -151,7 +151,7 @@ def run(ctx):
                     if scale and not (Fraction(1, 10**250) < scale < 10**250):
                         continue
                     if not overlaps(got[:2], want, scale * R9):
-                        ctx.violation(f"C06:{opname}:si-value-differs", f"{xa!r} {opname} {(xb if opname != 'pow' else power)!r} = {res!r}: SI {float(got[0])!r} expected {float(want[0])!r}", case)
+                        ctx.violation(f"C06:{opname}:si-value-differs", f"{xa!r} {opname} {(xb if opname != 'pow' else power)!r} = {res!r}: SI {core.sf(got[0])!r} expected {core.sf(want[0])!r}", case)
                     if opname == "mul" and res2 is not None and kit.finite(res2.magnitude) and not overlaps(si(res2)[:2], want, scale * R9):
                         ctx.violation("C06:mul:si-value-differs", f"{xb!r} * {xa!r} = {res2!r}", case)
                 else:
